@@ -54,6 +54,10 @@ def _model_spec(rng, mid):
         cls = rng.choice(zoo.UNI_FAMILIES)
         spec['cls'] = cls
         spec['data'] = zoo.rand_uni_dataspec(rng, 20, 80)
+        if rng.random() < 0.12 and spec['data']['gen'] in ('normal', 'uniform'):
+            # non-constant data with a tiny spread (seconds with nanosecond jitter)
+            spec['data']['scale'] = rng.choice([1e-9, 3e-10])
+            spec['data']['loc'] = rng.choice([0.0, 12.5])
         if cls.endswith('GaussianKDE'):
             o = rng.random()
             if o < 0.25:
@@ -86,6 +90,9 @@ def _model_spec(rng, mid):
     elif r < 0.84:
         spec['cls'] = zoo.GAUSSIAN_MV
         spec['data'] = zoo.rand_table_spec(rng, 2, 4, 30, 60, constant_p=0.2)
+        if rng.random() < 0.12:
+            spec['data']['affine'] = [rng.choice([[0.0, 1.0], [12.5, 1e-9], [0.0, 3e-10]])
+                                      for _ in spec['data']['margs']]
         o = rng.random()
         if o < 0.5:
             spec['ctor']['distribution'] = {'__cls__': rng.choice(zoo.FAST_UNI)}
